@@ -15,7 +15,7 @@ PROPERTY = "C14"
 LEVEL = "model_checking"
 ASSUMPTIONS = [
     "CPython's parser and inspect.signature define what the written signature is",
-    "defaults are constants of every literal type (int, bool, float, None, str, bytes, negative number) and names, annotations are names, subscripts and string annotations (expressions are C15's subject)",
+    "defaults are constants of every literal type (int, bool, float, None, str, bytes, negative number), names and a few expressions (same-precedence right operands, containers, calls), annotations are names, subscripts and string annotations (expressions are C15's subject)",
     "K14a extracts the nested function by name from the current source; if it is no longer there the harness reports SKIPPED and K14b alone decides",
 ]
 
@@ -108,7 +108,7 @@ MAXP = tier(2, 3)          # max positional-only, positional
 MAXK = 2                   # max keyword-only
 FULL = tier(False, True)
 ANN = ["", ": int", ": 'List[int]'", ": \"Foo\"", ": None", ": 'None'", ": List[None]"]
-DEFAULTS = ["100", "True", "1.0", "None", "'s'", "0.0", "False", "-1", "1", "0", "b'1'", "''"]
+DEFAULTS = ["100", "True", "1.0", "None", "'s'", "0.0", "False", "-1", "1", "0", "b'1'", "''", "2*(7//2)", "1+(8-3)", "(1, 2)", "[1, {'a': ()}]", "x.y[0](z)", "10-(4-3)"]
 RET = ["", " -> None", " -> int", " -> 'Foo'", " -> \"None\""]
 
 
